@@ -22,6 +22,7 @@ func propC06(c *Ctx) propInfo {
 	c.cursorPairing()
 	c.bitTables()
 	c.limUnaryPairs()
+	c.bufferSizing()
 	c.errflow(excC06E2, "boc")
 	c.floor("E10.who-may-write", 10)
 	c.floor("E8.capacity", 4)
@@ -36,7 +37,7 @@ func propC06(c *Ctx) propInfo {
 }
 
 var excC06E2 = map[string]string{
-	"(*boc.BitString).Append R-drop boc.BitString.WriteBitString":      "explicit '_ =': the receiver was grown by the missing number of bits just before, so the write fits",
+	"(*boc.BitString).Append R-drop boc.BitString.WriteBitString":      "explicit '_ =': the receiver was grown by the missing number of bits just before, so the write fits (the growth amount is checked by E10.buffer-sizing)",
 	"(*boc.BitString).ReadRemainingBits R-drop boc.BitString.ReadBits": "reads exactly BitsAvailableForRead() bits, which cannot fail",
 	"(*boc.BitString).ToFiftHex R-drop boc.BitString.WriteBit":         "writes the padding bit into a copy grown by 4-len%4 bits just before",
 	"(*boc.BitString).ToFiftHex R-drop boc.BitString.WriteBit#2":       "same: at most 3 padding bits into the grown copy",
@@ -130,7 +131,25 @@ func (c *Ctx) bitStringWriters() {
 				}
 				c.check(okv, R, key, st.Pos(), "clears bits of the last byte of the freshly allocated result (x &= mask)", "ReadBits writes into a BitString buffer other than by clearing tail bits of its own fresh result")
 			default:
-				c.bad(R, key, st.Pos(), "a function other than On/Off writes bits of a BitString buffer directly: the capacity check is bypassed")
+				// any other writer is accepted when it is guarded exactly like On/Off: the store is unreachable once
+				// the passing edge of checkRange(i) is cut, i being the bit index the store's byte index is derived from
+				okv := false
+				bit := ia.Index
+				if bo, ok := bit.(*ssa.BinOp); ok && (bo.Op == token.SHR || bo.Op == token.QUO) {
+					bit = bo.X
+				}
+				pass, ifs := passingEdges(f, requiredCheck{name: "checkRange", src: func(v ssa.Value) bool {
+					cl := callOf(v)
+					return cl != nil && callQName(&cl.Call) == bocPath+".BitString.checkRange" && shape(cl.Call.Args[1], 3) == shape(bit, 3)
+				}, kind: "nilerr"})
+				if len(ifs) > 0 {
+					cut := map[edge]bool{}
+					for _, e := range pass {
+						cut[e] = true
+					}
+					okv = !reachableWithout(f, cut)[st.Block()]
+				}
+				c.check(okv, R, key, st.Pos(), "behind the passing edge of checkRange on the same bit index, like On/Off", name+" writes bits of a BitString buffer directly without the capacity check On/Off perform (checkRange of the same bit index)")
 			}
 		})
 	}
@@ -379,7 +398,15 @@ func (c *Ctx) writeBitClears() {
 		}
 		okv = ifb != nil && edgeDominates(f, edge{ifb, 0}, on[0].Block()) && edgeDominates(f, edge{ifb, 1}, off[0].Block())
 	}
-	c.check(okv, R, "WriteBit sets on true and clears on false", f.Pos(), "val -> On(len), !val -> Off(len): a written 0 never depends on the previous buffer content", "WriteBit no longer clears the bit when writing 0: stale bits beyond len (left by the aligned fast path of ReadBits, Copy, Grow) leak into the written data")
+	how := "val -> On(len), !val -> Off(len): a written 0 never depends on the previous buffer content"
+	if !okv {
+		// not clearing is sound exactly when no buffer can hold a 1 after its len
+		if tz, _ := c.tailZeroStatus(); tz {
+			okv = true
+			how = "WriteBit does not clear explicitly; every producer of BitString buffers keeps the bits after len zero (E10.tail-zero), so a written 0 is already there"
+		}
+	}
+	c.check(okv, R, "a written 0 bit does not depend on stale buffer content", f.Pos(), how, "WriteBit does not clear the bit when writing 0 and not every producer of BitString buffers keeps the bits after len zero: stale bits leak into the written data")
 }
 
 // cellForwarders: every Cell method whose body is a single call on c.bits forwards to the method
@@ -715,4 +742,135 @@ func widthFuncOf(f *ssa.Function, callee string, argIdx int) string {
 		}
 	}
 	return ""
+}
+
+// ceilBytesOf recognises the ways of computing "bytes needed for x bits": ((x+7)&-8)/8, (x+7)/8,
+// (x+7)>>3, x/8+1, x>>3+1. Returns x. (A plain x/8 or x>>3 is the floor and is not accepted.)
+func ceilBytesOf(v ssa.Value) (ssa.Value, bool) {
+	bo, ok := v.(*ssa.BinOp)
+	if !ok {
+		return nil, false
+	}
+	isK := func(x ssa.Value, k int64) bool { kk, ok := constInt(x); return ok && kk == k }
+	div8 := func(b *ssa.BinOp) bool {
+		return (b.Op == token.QUO && isK(b.Y, 8)) || (b.Op == token.SHR && isK(b.Y, 3))
+	}
+	plus7 := func(x ssa.Value) (ssa.Value, bool) {
+		a, ok := x.(*ssa.BinOp)
+		if ok && a.Op == token.ADD && isK(a.Y, 7) {
+			return a.X, true
+		}
+		return nil, false
+	}
+	if div8(bo) {
+		// (x+7)/8
+		if x, ok := plus7(bo.X); ok {
+			return x, true
+		}
+		// ((x+7)&-8)/8
+		if a, ok := bo.X.(*ssa.BinOp); ok && a.Op == token.AND && isK(a.Y, -8) {
+			if x, ok := plus7(a.X); ok {
+				return x, true
+			}
+		}
+		return nil, false
+	}
+	// x/8 + 1
+	if bo.Op == token.ADD && isK(bo.Y, 1) {
+		if a, ok := bo.X.(*ssa.BinOp); ok && div8(a) {
+			return a.X, true
+		}
+	}
+	return nil, false
+}
+
+// bufferSizing: the design invariant 8*len(buf) >= cap is established by every function that sizes
+// a BitString buffer from a bit count: the byte count is a ceiling form of the bit count that becomes
+// (or is added to) cap. Append grows by at least the bits WriteBitString is going to write.
+func (c *Ctx) bufferSizing() {
+	const R = "E10.buffer-sizing"
+	if f := c.mustFn(R, "boc", "NewBitString"); f != nil {
+		okv := false
+		for _, m := range literalFields(f, "BitString") {
+			if len(m["buf"]) == 1 && len(m["cap"]) == 1 {
+				if mk, ok := m["buf"][0].(*ssa.MakeSlice); ok {
+					if x, ok := ceilBytesOf(mk.Len); ok {
+						okv = x == m["cap"][0]
+					}
+				}
+			}
+		}
+		c.check(okv, R, "NewBitString allocates ceil(cap/8) bytes", f.Pos(), "buf = make(ceil(bitLen/8)), cap = bitLen", "NewBitString no longer allocates at least ceil(bitLen/8) bytes for capacity bitLen: a write within capacity can index past the buffer")
+	}
+	if f := c.mustFn(R, "boc", "BitString.Grow"); f != nil {
+		// cap' = cap + bitLen ; appended bytes n with 8n >= bitLen (n = ceil form of bitLen), or
+		// n = ceil(cap') - len(buf)
+		var added ssa.Value
+		for _, st := range fieldStores(f, "cap") {
+			if bo, ok := st.Val.(*ssa.BinOp); ok && bo.Op == token.ADD {
+				added = bo.Y
+			}
+		}
+		okv := false
+		desc := "?"
+		allInstrs(f, func(_ *ssa.BasicBlock, in ssa.Instruction) {
+			mk, ok := in.(*ssa.MakeSlice)
+			if !ok {
+				return
+			}
+			desc = shape(mk.Len, 4)
+			if x, ok := ceilBytesOf(mk.Len); ok && added != nil && x == added {
+				okv = true
+				return
+			}
+			if bo, ok := mk.Len.(*ssa.BinOp); ok && bo.Op == token.SUB {
+				if x, ok := ceilBytesOf(bo.X); ok {
+					_, n, isF := fieldOfLoad(x)
+					if cl := callOf(bo.Y); isF && n == "cap" && cl != nil {
+						if bi, ok := cl.Call.Value.(*ssa.Builtin); ok && bi.Name() == "len" {
+							okv = true
+						}
+					}
+				}
+			}
+		})
+		c.check(okv && added != nil, R, "Grow appends at least ceil(bitLen/8) bytes for bitLen more bits of capacity", f.Pos(), "append(make(bitLen/8+1)); cap += bitLen", "BitString.Grow adds bitLen to cap but appends "+desc+" bytes, which is not a ceiling of the bits added (nor ceil(new cap) - len(buf)): 8*len(buf) can fall below cap and the next write within capacity indexes past the buffer")
+	}
+	if f := c.mustFn(R, "boc", "BitString.Append"); f != nil {
+		var need ssa.Value
+		for _, cl := range callsTo(f, bocPath+".BitString.Grow") {
+			need = cl.Call.Args[1]
+		}
+		okv := false
+		got := "?"
+		if bo, ok := need.(*ssa.BinOp); ok && bo.Op == token.SUB {
+			_, n, isF := fieldOfLoad(bo.X)
+			cl := callOf(bo.Y)
+			got = shape(need, 3)
+			okv = isF && n == "len" && strings.Join(leaves(bo.X), ",") == "b.len" && cl != nil && callQName(&cl.Call) == bocPath+".BitString.BitsAvailableForWrite"
+		}
+		// WriteBitString writes bs.len bits from position 0
+		okW := false
+		if g := c.mustFn(R, "boc", "BitString.WriteBitString"); g != nil {
+			reset := false
+			for _, st := range fieldStores(g, "rCursor") {
+				if k, ok := constInt(st.Val); ok && k == 0 {
+					reset = true
+				}
+			}
+			bound := false
+			for _, b := range g.Blocks {
+				if iff := lastIf(b); iff != nil && inLoop(b) {
+					if bo, ok := iff.Cond.(*ssa.BinOp); ok && bo.Op == token.LSS {
+						if _, n, ok := fieldOfLoad(bo.Y); ok && n == "len" {
+							bound = true
+						}
+					}
+				}
+			}
+			okW = reset && bound
+		}
+		c.check(okv && okW, R, "Append grows by the number of bits WriteBitString will write", f.Pos(), "Grow(b.len - free) ; WriteBitString writes b.len bits from 0", "BitString.Append grows the receiver by "+got+" while WriteBitString rewinds its argument and writes all of its len bits: a partly read argument is truncated silently (the write error is discarded)")
+	}
+	c.floor(R, 3)
 }
